@@ -517,7 +517,7 @@ func checkProperty(rc *runCtx, p, tier string, seed int, verif string, bl Baseli
 		}
 	}
 	// bounded stand-ins for functions outside the subset (never counted as proved)
-	bres := runBounded(rc.w.repo, verifRoot, p)
+	bres := runBounded(rc.w.repo, verifRoot, p, tier)
 	for _, br := range bres {
 		// cases the stand-in classifies under a key are findings only if that key is listed as open; otherwise violations
 		for _, key := range sortedKeys(br.Known) {
